@@ -256,6 +256,11 @@ impl FlushedOffset {
         self.0.rewrites.fetch_add(1, Ordering::Release);
     }
 
+    /// Records that already flushed bytes were rewritten in place.
+    pub(crate) fn mark_rewritten(&self) {
+        self.0.rewrites.fetch_add(1, Ordering::Release);
+    }
+
     pub(crate) fn rewrites(&self) -> u64 {
         self.0.rewrites.load(Ordering::Acquire)
     }
